@@ -99,6 +99,11 @@ func c18(c *Ctx) {
 				}
 			})
 		}
+		if bad == "" && len(ev.Params) >= 2 {
+			if w := writesThroughParam(p, ev, ev.Params[1]); w != "" {
+				bad = shortName(ev) + " writes through its input slice: " + w
+			}
+		}
 		r.Check(bad == "", "C18.R1", "Eval of arg."+n.Obj().Name()+" is read-only", p.Pos(ev.Pos()), "no non-local write in the functions it reaches",
 			"evaluating the expression writes state ("+bad+"): a later evaluation can answer differently")
 		r.AddStat("functions_reached_by_eval", cnt)
